@@ -513,7 +513,7 @@ Proof.
       rewrite tag_octets_identifier by exact Hcn.
       apply std_decode_other; try assumption.
       intros E. assert (Hin' : tag_in (btag x) [(c, n)] = true).
-      { apply tag_in_spec. left. destruct (btag x); cbn [fst snd] in E. symmetry. exact E. }
+      { apply tag_in_spec. left. rewrite (surjective_pairing (btag x)). exact E. }
       congruence.
     + cbn [orb] in Hs2. apply negb_true_iff in Hs2.
       replace (identifier (fst (btag x)) (bcons x) (snd (btag x)) ++ after_id x ++ r) with (bser x ++ r)
@@ -522,6 +522,341 @@ Proof.
       * destruct (eff ovr (t_class tg) (t_num tg)); exact Hcn.
       * intros _. exact Hs2.
       * discriminate.
+Qed.
+
+(* ------------------------------------------------------------------ *)
+(** * 3. contents of the simple types *)
+
+Lemma bwf_prim c n lo content :
+  bwf (BPrim c n lo content) = true ->
+  0 <= n /\ (c, n) <> (Univ, 0) /\ Forall is_byte content /\
+  length_value lo = Some (Z.of_nat (length content)).
+Proof.
+  intros H. destruct (bwf_tag _ H) as [H1 H2]. cbn [btag snd] in *. cbn [bwf] in H.
+  apply andb_prop in H. destruct H as [H Hl]. apply andb_prop in H. destruct H as [_ Hb].
+  split; [exact H1|]. split; [exact H2|]. split; [apply forallb_is_byteb; exact Hb|].
+  destruct (length_value lo) as [l|]; [|discriminate]. f_equal. lia.
+Qed.
+
+Lemma bwf_cons_def c n lo ch :
+  bwf (BCons c n (LDef lo) ch) = true ->
+  0 <= n /\ (c, n) <> (Univ, 0) /\ forallb bwf ch = true /\
+  length_value lo = Some (Z.of_nat (length (concat (map bser ch)))).
+Proof.
+  intros H. destruct (bwf_tag _ H) as [H1 H2]. cbn [btag snd] in *. cbn [bwf] in H.
+  apply andb_prop in H. destruct H as [H Hl]. apply andb_prop in H. destruct H as [_ Hb].
+  split; [exact H1|]. split; [exact H2|]. split; [exact Hb|].
+  destruct (length_value lo) as [l|]; [|discriminate]. f_equal. lia.
+Qed.
+
+Lemma bwf_cons_indef c n ch :
+  bwf (BCons c n LIndef ch) = true -> 0 <= n /\ (c, n) <> (Univ, 0) /\ forallb bwf ch = true.
+Proof.
+  intros H. destruct (bwf_tag _ H) as [H1 H2]. cbn [btag snd] in *. cbn [bwf] in H.
+  apply andb_prop in H. destruct H as [H _]. apply andb_prop in H. destruct H as [_ Hb].
+  repeat split; assumption.
+Qed.
+
+(** std_decode on a primitive encoding whose tag is the expected one *)
+Lemma std_decode_prim c n lo content p r indef (K : nat -> option Z -> result (value * nat)) :
+  bwf (BPrim c n lo content) = true ->
+  std_decode (identifier c false n) indef (p ++ bser (BPrim c n lo content) ++ r) (length p) K =
+  (let* (v, en) := K (length (p ++ identifier c false n ++ lo)) (Some (Z.of_nat (length content))) in
+   Ok (DVal v, en)).
+Proof.
+  intros Hw. destruct (bwf_prim _ _ _ _ Hw) as (Hn & _ & _ & Hl).
+  cbn [bser]. rewrite <- !app_assoc.
+  rewrite (std_decode_definite c false n lo content r p indef K Hn Hl).
+  rewrite !app_length. rewrite Nat.add_assoc. reflexivity.
+Qed.
+
+Lemma dec_bool_at q b r : dec_bool (q ++ [b] ++ r) (length q) (Some 1) = Ok (VBool (negb (b =? 0)), (length q + 1)%nat).
+Proof. unfold dec_bool. cbn [app]. rewrite nth_error_at. reflexivity. Qed.
+
+Lemma dec_int_at q content r z :
+  read_integer content = Some z ->
+  dec_int (q ++ content ++ r) (length q) (Some (Z.of_nat (length content))) = Ok (VInt z, (length q + length content)%nat).
+Proof.
+  intros H. unfold dec_int, with_len. rewrite Nat2Z.id, slice_at. rewrite (read_integer_signed _ _ H). reflexivity.
+Qed.
+
+Lemma enum_name_of_find z items nm k :
+  nodupb Z.eqb (map snd items) = true ->
+  find (fun it : string * Z => snd it =? z) items = Some (nm, k) -> enum_name_of z items = Some nm.
+Proof.
+  induction items as [|[n0 k0] items IH]; cbn [map nodupb find enum_name_of snd]; [discriminate|].
+  intros Hn Hf. apply andb_prop in Hn. destruct Hn as [Hn1 Hn2].
+  destruct (k0 =? z) eqn:E.
+  - injection Hf as <- <-.
+    assert (Hnone : enum_name_of z items = None).
+    { assert (k0 = z) by lia. subst k0. apply negb_true_iff in Hn1. clear -Hn1.
+      induction items as [|[n1 k1] items IH]; cbn [enum_name_of]; [reflexivity|].
+      cbn [map existsb snd] in Hn1. apply orb_false_elim in Hn1. destruct Hn1 as [H1 H2].
+      rewrite (IH H2). assert (z =? k1 = false) by lia. rewrite H. reflexivity. }
+    rewrite Hnone. assert (z =? k0 = true) by lia. rewrite H. reflexivity.
+  - rewrite (IH Hn2 Hf). reflexivity.
+Qed.
+
+Lemma dec_enum_at q content r items has_ext z v :
+  nodupb Z.eqb (map snd items) = true ->
+  read_integer content = Some z -> enum_value numeric items z = Some v ->
+  dec_enum numeric items has_ext (q ++ content ++ r) (length q) (Some (Z.of_nat (length content))) =
+  Ok (v, (length q + length content)%nat).
+Proof.
+  intros Hn H Hv. unfold dec_enum, with_len. rewrite Nat2Z.id, slice_at. rewrite (read_integer_signed _ _ H).
+  unfold enum_value in Hv. destruct (find _ items) as [[nm k]|] eqn:Ef; [|discriminate].
+  rewrite (enum_name_of_find _ _ _ _ Hn Ef). injection Hv as <-. reflexivity.
+Qed.
+
+Lemma dec_oid_at q content r arcs :
+  Forall is_byte content -> read_oid content = Some arcs ->
+  dec_oid (q ++ content ++ r) (length q) (Some (Z.of_nat (length content))) = Ok (VOid arcs, (length q + length content)%nat).
+Proof.
+  intros Hb H. unfold dec_oid, with_len. rewrite Nat2Z.id. rewrite (decode_oid_spec q content r arcs Hb H). reflexivity.
+Qed.
+
+(* ------------------------------------------------------------------ *)
+(** * 4. the contents of a constructed encoding: children, then the end *)
+
+(** the contents end at offset [o]: the announced length is reached, or the
+    end-of-contents octets follow *)
+Definition closed (endo : option nat) (o : nat) (r : list Z) : Prop :=
+  match endo with Some en => en = o | None => exists r', r = 0 :: 0 :: r' end.
+
+Definition after_close (endo : option nat) (o : nat) : nat :=
+  match endo with Some _ => o | None => (o + 2)%nat end.
+
+Lemma is_end_at_close endo q r :
+  closed endo (length q) r -> is_end_of_data (q ++ r) (length q) endo = Ok (true, after_close endo (length q)).
+Proof.
+  unfold closed, is_end_of_data, after_close. destruct endo as [en|].
+  - intros ->. rewrite Nat.leb_refl. reflexivity.
+  - intros (r' & ->). rewrite detect_eoc_at_end. reflexivity.
+Qed.
+
+Lemma bser_length_pos x : bwf x = true -> (2 <= length (bser x))%nat.
+Proof.
+  intros Hw. rewrite bser_shape, app_length.
+  destruct (bwf_tag x Hw) as [Hn _].
+  pose proof (identifier_wf_tag (fst (btag x)) (bcons x) (snd (btag x)) Hn) as W.
+  pose proof (after_id_nonempty x Hw) as A.
+  destruct (identifier _ _ _); [inversion W|]. destruct (after_id x); [contradiction|]. cbn. lia.
+Qed.
+
+(** a child starts at offset |q| and the contents extend at least to its end *)
+Lemma is_end_at_child endo q x r :
+  bwf x = true ->
+  match endo with Some en => (length q + length (bser x) <= en)%nat | None => True end ->
+  is_end_of_data (q ++ bser x ++ r) (length q) endo = Ok (false, length q).
+Proof.
+  intros Hw He. unfold is_end_of_data. destruct endo as [en|].
+  - pose proof (bser_length_pos x Hw). destruct (en <=? length q)%nat eqn:E; [lia|reflexivity].
+  - destruct (bwf_tag x Hw) as [Hn H0]. rewrite bser_shape, <- app_assoc.
+    rewrite detect_eoc_at_child; try assumption.
+    + reflexivity.
+    + rewrite <- surjective_pairing. exact H0.
+    + intros E. apply app_eq_nil in E. destruct E as [E _]. revert E. apply after_id_nonempty. exact Hw.
+Qed.
+
+Definition children_bytes (xs : list btlv) : list Z := concat (map bser xs).
+
+Lemma seg_loop_spec (decseg : nat -> result (dres * nat)) data endo : forall xs vs q r lp,
+  data = q ++ children_bytes xs ++ r ->
+  Forall2 (fun x v => forall q' r', data = q' ++ bser x ++ r' ->
+                                    decseg (length q') = Ok (DVal v, (length q' + length (bser x))%nat)) xs vs ->
+  forallb bwf xs = true ->
+  closed endo (length q + length (children_bytes xs))%nat r ->
+  (length xs < lp)%nat ->
+  seg_loop decseg data endo lp (length q) = Ok (vs, after_close endo (length q + length (children_bytes xs))).
+Proof.
+  intros xs vs q r lp Hd H2. revert q lp Hd. induction H2 as [|x v xs vs Hx _ IH]; intros q lp Hd Hw Hc Hlp.
+  - destruct lp; [cbn in Hlp; lia|]. cbn [seg_loop]. unfold children_bytes in *. cbn [map concat app length] in *.
+    rewrite Nat.add_0_r in *. subst data. rewrite is_end_at_close by exact Hc. reflexivity.
+  - destruct lp; [cbn in Hlp; lia|]. cbn [seg_loop]. unfold children_bytes in *. cbn [map concat forallb length] in *.
+    apply andb_prop in Hw. destruct Hw as [Hwx Hw]. rewrite <- app_assoc in Hd.
+    rewrite Hd at 1. rewrite is_end_at_child; [|exact Hwx|].
+    2:{ destruct endo as [en|]; [|exact I]. unfold closed in Hc. rewrite app_length in Hc. lia. }
+    cbn [bind]. rewrite (Hx q _ Hd). cbn [bind].
+    assert (Hd' : data = (q ++ bser x) ++ concat (map bser xs) ++ r) by (rewrite <- app_assoc; exact Hd).
+    replace (length q + length (bser x))%nat with (length (q ++ bser x)) by apply app_length.
+    rewrite (IH (q ++ bser x) lp Hd' Hw); [| |cbn in Hlp; lia].
+    + cbn [bind]. f_equal. f_equal. rewrite !app_length. f_equal. lia.
+    + rewrite !app_length in *. replace (length q + length (bser x) + length (concat (map bser xs)))%nat
+        with (length q + (length (bser x) + length (concat (map bser xs))))%nat by lia. exact Hc.
+Qed.
+
+(* ------------------------------------------------------------------ *)
+(** * 5. primitive-or-constructed strings *)
+
+Fixpoint bdepth (x : btlv) : nat :=
+  match x with
+  | BPrim _ _ _ _ => 1%nat
+  | BCons _ _ _ ch => S (fold_right (fun c acc => Nat.max (bdepth c) acc) 0%nat ch)
+  end.
+
+Lemma bdepth_child c n l ch x : In x ch -> (bdepth x < bdepth (BCons c n l ch))%nat.
+Proof.
+  cbn [bdepth]. induction ch as [|y ch IH]; [intros []|]. cbn [fold_right In].
+  intros [->|H]; [lia|]. specialize (IH H). lia.
+Qed.
+
+Lemma children_bytes_length xs : forallb bwf xs = true -> (length xs <= length (children_bytes xs))%nat.
+Proof.
+  unfold children_bytes. induction xs as [|x xs IH]; cbn [forallb map concat length]; [lia|].
+  intros H. apply andb_prop in H. destruct H as [H1 H2]. rewrite app_length.
+  pose proof (bser_length_pos x H1). specialize (IH H2). lia.
+Qed.
+
+Lemma read_octets_false_true x bytes :
+  read_octets false x = Some bytes -> btag x = (Univ, 4) /\ read_octets true x = Some bytes.
+Proof.
+  destruct x as [c n lo content | c n l ch]; cbn [read_octets orb btag].
+  - destruct (tag_eqb (c, n) (Univ, 4)) eqn:E; [|discriminate]. apply tag_eqb_eq in E. intros H. split; assumption.
+  - destruct (tag_eqb (c, n) (Univ, 4)) eqn:E; [|discriminate]. apply tag_eqb_eq in E. intros H. split; assumption.
+Qed.
+
+Lemma read_octets_cons c n l ch bytes :
+  read_octets true (BCons c n l ch) = Some bytes ->
+  exists parts, Forall2 (fun x p => read_octets false x = Some p) ch parts /\ bytes = concat parts.
+Proof.
+  cbn [read_octets orb]. revert bytes. induction ch as [|x ch IH]; intros bytes H.
+  - injection H as <-. exists []. split; [constructor|reflexivity].
+  - destruct (read_octets false x) as [a|] eqn:Ea; [|discriminate].
+    match type of H with match ?g with _ => _ end = _ => destruct g as [b|] eqn:Eb; [|discriminate] end.
+    injection H as <-. destruct (IH b eq_refl) as (parts & H2 & ->).
+    exists (a :: parts). split; [constructor; assumption | reflexivity].
+Qed.
+
+Definition octets_result (pk : pc_kind) (bytes : list Z) : result value :=
+  match pk with
+  | PcOctets => Ok (VBytes bytes)
+  | PcStr k => dec_str_prim k bytes
+  | PcBits => Err EUnmodelled
+  end.
+
+Lemma join_segments_octets pk parts :
+  pk <> PcBits -> join_segments pk (map VBytes parts) = octets_result pk (concat parts).
+Proof.
+  intros Hpk. assert (Hm : mapM (fun s => match s with VBytes b => Ok b | _ => Err EUnmodelled end) (map VBytes parts) = Ok parts).
+  { induction parts as [|a parts IH]; cbn [map mapM]; [reflexivity|]. cbn [bind]. rewrite IH. reflexivity. }
+  destruct pk; [contradiction| |]; cbn [join_segments octets_result]; rewrite Hm; reflexivity.
+Qed.
+
+Lemma identifier_kind_neq c n : 0 <= n -> identifier c true n <> identifier c false n.
+Proof.
+  intros Hn E. assert (E' : identifier c true n ++ [] = identifier c false n ++ []) by (rewrite E; reflexivity).
+  apply identifier_prefix_free in E'; try assumption. destruct E' as (_ & E' & _). discriminate.
+Qed.
+
+Lemma bdepth_children c n l ch sf :
+  (bdepth (BCons c n l ch) <= S sf)%nat -> Forall (fun x => (bdepth x <= sf)%nat) ch.
+Proof.
+  intros H. apply Forall_forall. intros x Hx. pose proof (bdepth_child c n l ch x Hx). lia.
+Qed.
+
+Lemma segs_octets sf data ch parts :
+  (forall x bytes pk p r,
+      (bdepth x <= sf)%nat -> bwf x = true -> pk <> PcBits -> read_octets true x = Some bytes ->
+      pc_decode sf pk (identifier (fst (btag x)) false (snd (btag x))) (p ++ bser x ++ r) (length p) =
+      (let* v := octets_result pk bytes in Ok (DVal v, (length p + length (bser x))%nat))) ->
+  Forall (fun x => (bdepth x <= sf)%nat) ch -> forallb bwf ch = true ->
+  Forall2 (fun x pt => read_octets false x = Some pt) ch parts ->
+  Forall2 (fun x v => forall q' r', data = q' ++ bser x ++ r' ->
+                                    pc_decode sf PcOctets (mk_tag None 4 false) data (length q') =
+                                    Ok (DVal v, (length q' + length (bser x))%nat)) ch (map VBytes parts).
+Proof.
+  intros IH Hdep Hw H2. induction H2 as [|x pt ch parts Hx _ IHl]; [constructor|].
+  cbn [map]. cbn [forallb] in Hw. apply andb_prop in Hw. destruct Hw as [Hwx Hw].
+  inversion Hdep as [|? ? Hdx Hdch]; subst.
+  constructor; [|apply IHl; assumption].
+  intros q' r' Hq. destruct (read_octets_false_true _ _ Hx) as [Htag Hx'].
+  rewrite Hq. unfold mk_tag. cbn [eff]. rewrite tag_octets_identifier by lia.
+  cbn [fst snd].
+  replace Univ with (fst (btag x)) by (rewrite Htag; reflexivity).
+  replace 4 with (snd (btag x)) at 1 by (rewrite Htag; reflexivity).
+  rewrite (IH x pt PcOctets q' r'); try assumption; try discriminate. reflexivity.
+Qed.
+
+Lemma pc_decode_octets : forall sf x bytes pk p r,
+  (bdepth x <= sf)%nat -> bwf x = true -> pk <> PcBits ->
+  read_octets true x = Some bytes ->
+  pc_decode sf pk (identifier (fst (btag x)) false (snd (btag x))) (p ++ bser x ++ r) (length p) =
+  (let* v := octets_result pk bytes in Ok (DVal v, (length p + length (bser x))%nat)).
+Proof.
+  induction sf as [|sf IH]; intros x bytes pk p r Hd Hw Hpk Hr.
+  { destruct x; cbn in Hd; lia. }
+  destruct x as [c n lo content | c n l ch]; cbn [btag fst snd].
+  - (* primitive *)
+    destruct (bwf_prim _ _ _ _ Hw) as (Hn & _ & _ & Hl).
+    cbn [read_octets orb] in Hr. injection Hr as <-.
+    cbn [pc_decode]. cbv zeta. cbn [bser]. rewrite <- !app_assoc. rewrite slice_at, zlist_eqb_refl.
+    replace (p ++ identifier c false n ++ lo ++ content ++ r) with ((p ++ identifier c false n) ++ lo ++ (content ++ r))
+      by (rewrite <- !app_assoc; reflexivity).
+    replace (length p + length (identifier c false n))%nat with (length (p ++ identifier c false n)) by apply app_length.
+    rewrite (decode_length_at _ lo _ (content ++ r) false Hl) by (rewrite app_length; lia).
+    cbn [bind]. unfold with_len. rewrite Nat2Z.id.
+    replace ((p ++ identifier c false n) ++ lo ++ content ++ r) with (((p ++ identifier c false n) ++ lo) ++ content ++ r)
+      by (rewrite <- !app_assoc; reflexivity).
+    replace (length (p ++ identifier c false n) + length lo)%nat with (length ((p ++ identifier c false n) ++ lo)) by apply app_length.
+    assert (Hprim : pc_primitive pk (((p ++ identifier c false n) ++ lo) ++ content ++ r)
+                                 (length ((p ++ identifier c false n) ++ lo)) (length content) = octets_result pk content).
+    { destruct pk; [contradiction| |]; cbn [pc_primitive octets_result]; rewrite slice_at; reflexivity. }
+    rewrite Hprim. destruct (octets_result pk content); cbn [bind]; [|reflexivity].
+    f_equal. f_equal. rewrite !app_length. lia.
+  - (* constructed *)
+    destruct (read_octets_cons _ _ _ _ _ Hr) as (parts & H2 & ->).
+    assert (Hn : 0 <= n) by (destruct (bwf_tag _ Hw) as [H _]; exact H).
+    assert (Hwch : forallb bwf ch = true) by (destruct l; [apply bwf_cons_def in Hw | apply bwf_cons_indef in Hw]; tauto).
+    assert (Hsb : pc_segment_is_bits pk = false) by (destruct pk; [contradiction|reflexivity|reflexivity]).
+    cbn [pc_decode]. cbv zeta. rewrite Hsb.
+    rewrite set_constructed_identifier by exact Hn.
+    rewrite (bser_shape (BCons c n l ch)). cbn [btag fst snd bcons].
+    remember (p ++ (identifier c true n ++ after_id (BCons c n l ch)) ++ r) as data eqn:Ed.
+    assert (Etd : slice data (length p) (length p + length (identifier c false n)) = identifier c true n).
+    { subst data. rewrite <- identifier_length_kind, <- !app_assoc. apply slice_at. }
+    rewrite Etd. rewrite (zlist_eqb_neq _ _ (identifier_kind_neq c n Hn)). rewrite zlist_eqb_refl.
+    rewrite <- identifier_length_kind.
+    (* the segments *)
+    assert (Hseg : forall q r' endo,
+               data = q ++ children_bytes ch ++ r' ->
+               closed endo (length q + length (children_bytes ch)) r' ->
+               seg_loop (pc_decode sf PcOctets (mk_tag None 4 false) data) data endo (S (length data)) (length q)
+               = Ok (map VBytes parts, after_close endo (length q + length (children_bytes ch)))).
+    { intros q r' endo Hdata Hcl.
+      apply seg_loop_spec with (r := r'); try assumption.
+      - apply segs_octets; try assumption. eapply bdepth_children; exact Hd.
+      - rewrite Hdata, !app_length. pose proof (children_bytes_length ch Hwch). lia. }
+    destruct l as [lo|]; cbn [after_id] in Ed.
+    + destruct (bwf_cons_def _ _ _ _ Hw) as (_ & _ & _ & Hl).
+      assert (E1 : data = (p ++ identifier c true n) ++ lo ++ (concat (map bser ch) ++ r))
+        by (subst data; rewrite <- !app_assoc; reflexivity).
+      assert (Hdl : decode_length data (length p + length (identifier c true n)) false =
+                    Ok (Some (Z.of_nat (length (concat (map bser ch)))), length ((p ++ identifier c true n) ++ lo))).
+      { rewrite E1. replace (length p + length (identifier c true n))%nat with (length (p ++ identifier c true n))
+          by apply app_length.
+        rewrite (decode_length_at _ lo _ (concat (map bser ch) ++ r) false Hl) by (rewrite app_length; lia).
+        rewrite !app_length. reflexivity. }
+      rewrite Hdl. cbn [bind end_of]. rewrite Nat2Z.id.
+      rewrite (Hseg ((p ++ identifier c true n) ++ lo) r).
+      * cbn [bind after_close]. rewrite join_segments_octets by exact Hpk.
+        destruct (octets_result pk (concat parts)); cbn [bind]; [|reflexivity].
+        f_equal. f_equal. unfold children_bytes. cbn [after_id]. rewrite !app_length. lia.
+      * subst data. unfold children_bytes. rewrite <- !app_assoc. reflexivity.
+      * cbn [closed]. reflexivity.
+    + assert (E1 : data = (p ++ identifier c true n) ++ 128 :: (concat (map bser ch) ++ [0; 0] ++ r))
+        by (subst data; rewrite <- !app_assoc; cbn [app]; rewrite <- !app_assoc; reflexivity).
+      assert (Hdl : decode_length data (length p + length (identifier c true n)) false =
+                    Ok (None, length ((p ++ identifier c true n) ++ [128]))).
+      { rewrite E1. replace (length p + length (identifier c true n))%nat with (length (p ++ identifier c true n))
+          by apply app_length.
+        rewrite decode_length_indefinite. rewrite !app_length. cbn [length]. f_equal. f_equal. lia. }
+      rewrite Hdl. cbn [bind end_of].
+      rewrite (Hseg ((p ++ identifier c true n) ++ [128]) (0 :: 0 :: r)).
+      * cbn [bind after_close]. rewrite join_segments_octets by exact Hpk.
+        destruct (octets_result pk (concat parts)); cbn [bind]; [|reflexivity].
+        f_equal. f_equal. unfold children_bytes. cbn [after_id]. rewrite !app_length. cbn [length]. rewrite !app_length. cbn [length]. lia.
+      * subst data. unfold children_bytes. rewrite <- !app_assoc. cbn [app]. rewrite <- !app_assoc. reflexivity.
+      * cbn [closed]. eexists; reflexivity.
 Qed.
 
 End Accept.
